@@ -158,6 +158,12 @@ def classify_e2e(c, model):
         out.append(dict(layer="correspondence", what="end to end: model driver failed on the journal: " + str(model)[:200], input=None))
         return out
     delivered, prop, problems = parts
+    fs = c["feats"].split(",")
+    if "request-for-another-partition" in fs or "message-of-another-partition" in fs:
+        out.append(dict(layer="property", what="end to end: the Reader bound to one partition of a multi-partition topic sent Fetch / ListOffsets requests "
+                                               "for ANOTHER partition or delivered messages labelled with another partition (the Metadata answer lists the "
+                                               "partitions out of id order)", input=c))
+        return out
     if prop != "prop-ok":
         out.append(dict(layer="property",
                         what="end to end: FetchMessage returned a sequence that is not a prefix of the stored records from the start position", input=c))
@@ -245,7 +251,7 @@ def correspondence(ctx):
                      "the encoded response cut at every byte (<= 260 bytes) or 16 sampled positions, physically cut connections, passed deadlines, hwm = offset; "
                      "every byte-level result includes Batch.Close's result and whether the library closed the connection; for fetch v5/v10 a third of the layouts get a partition header with the last stable offset below the high watermark (half of them exactly at the fetch offset), a log start offset and an aborted-transactions list; C02_progress is judged on every in-spec case (the model delivers => the real code must); the io.Reader style family (op rd, 150 cases: Conn.Read and Batch.Read on single-record v2 batches and v0/v1 message sets, each buffer shorter than the next value with probability 1/2, retried with a larger one on the same Conn: values obtained = stored records from the position, offsets after io.ErrShortBuffer unchanged, results compared with the model's batch_reads / reads_close); " + SWEEP_RULE + "; "
                      "fetch v2/v5/v10; end to end: real kafka.Reader on harness/fetchfake with scripted cuts, NotLeaderForPartition, OffsetOutOfRange, "
-                     "RequestTimedOut, disconnects, leader moves, re-packed layouts, SetOffset (absolute, FirstOffset, LastOffset) and SetOffsetAt, a partition that grows during the scenario (a quarter), the fetch still pending at the end journalled and compared, a 75-scenario slice of the C17 reader-resume family (reader_cut_cases), an open transaction (last stable offset at a batch base below the high watermark) in a third of the scenarios and the LSO family (36 scenarios: a fetch lands exactly on the last stable offset, fetch v2/v5/v10, the Reader must deliver every record); the SetOffset family (140 scenarios: start by default / SetOffset at a record / in a hole / FirstOffset, "
+                     "RequestTimedOut, disconnects, leader moves, re-packed layouts, topics of 1..4 partitions whose Metadata answer lists partitions and brokers in a random order (the Reader is bound to one of them; every Fetch / ListOffsets must name it and every message carry it), SetOffset (absolute, FirstOffset, LastOffset) and SetOffsetAt, a partition that grows during the scenario (a quarter), the fetch still pending at the end journalled and compared, a 75-scenario slice of the C17 reader-resume family (reader_cut_cases), an open transaction (last stable offset at a batch base below the high watermark) in a third of the scenarios and the LSO family (36 scenarios: a fetch lands exactly on the last stable offset, fetch v2/v5/v10, the Reader must deliver every record); the SetOffset family (140 scenarios: start by default / SetOffset at a record / in a hole / FirstOffset, "
                      "exactly k = 0..3 reads by polling calls or with a first call that blocks until its message arrives (the call that starts the fetcher returns the first message), "
                      "then SetOffset to the same position, one past it, the last returned offset, one past that, or a hole, then reads); Reader.Offset() and Reader.Lag() "
                      "journalled after every call and compared with the model; every case is non-trivial (distinct by hash of op+args)",
@@ -300,6 +306,9 @@ def reader_cut_cases(ctx):
             add(c, m, "correspondence", "model driver failed on the journal: " + str(m)[:160], with_input=False)
             continue
         delivered, prop, problems = parts
+        if "request-for-another-partition" in feats or "message-of-another-partition" in feats:
+            add(c, m, "property", "the Reader requested / delivered records of another partition than the one it is bound to")
+            continue
         if prop != "prop-ok":
             add(c, m, "property", "FetchMessage returned a sequence that is not the stored records from the start offset, each once, in order (a record lost, duplicated or reordered)")
         elif "incomplete" in feats:
